@@ -10,12 +10,15 @@ from props.c12 import shape
 ID = "C13"
 SECTIONS = ["units"]
 LEAN_MODULES = ["QExPy.Props.C13"]
-THEOREMS = ["QExPy.C13_separator_tie", "QExPy.C13_roundtrip_partial",
-            "QExPy.C13_printed_forms_accepted"]
+LEMMA_MODULES = ["QExPy.Lemmas.UnitParse", "QExPy.Lemmas.ParseSpec", "QExPy.Lemmas.PrintNum", "QExPy.Lemmas.PrintAst"]
+THEOREMS = ["QExPy.C13_separator_tie", "QExPy.C13_roundtrip", "QExPy.C13_assign_twice",
+            "QExPy.C13_roundtrip_partial", "QExPy.C13_printed_forms_accepted"]
 RULE = ("exponent maps over 1-4 symbols (every order), integer exponents in [-4,4] without 0 and "
         "the rational exponents that sqrt and the constant powers 1/2, 1/3, 2/3, 3/2 produce, in "
         "both unit styles; the quantity carrying the map is built through real arithmetic (unit "
-        "string, product of powers, quotient of products, square root of the squared product), "
+        "string, product of powers, quotient of products, square root of the squared product, "
+        "or a chain of two constant float powers such as (x**0.2)**5.0 whose exact product is an "
+        "integer or p/q with q <= 10 while the binary64 product is not), "
         "its `.unit` is read, assigned to a fresh quantity, used in Measurement(unit=..) and parsed "
         "back, and MeasurementArray.append / insert / item assignment are exercised on arrays "
         "built the same way; the printed string is also fed to the Lean parser model and the Lean "
@@ -26,7 +29,8 @@ ASSUMPTIONS = ["exponents with denominator <= 10 (Fraction.limit_denominator(10)
                "no compound-unit definitions active (those are C18)"]
 TRUSTED = ["modelled not verified: str.format, Fraction.limit_denominator, numpy object arrays"]
 LEVEL_TEXT = "proof"
-LEVEL_NOTE = "round trip proved for the Lean printer/parser; tied to the code by the differential run"
+LEVEL_NOTE = ("round trip proved for the Lean printer/parser for all exponent maps (any size, any "
+              "non-zero rational exponents, both styles); tied to the code by the differential run")
 TECHNIQUE = "Lean 4 theorems over an exact model of printer and parser"
 
 RATS = [F(1, 2), F(3, 2), F(-1, 2), F(-3, 2), F(1, 3), F(2, 3), F(-1, 3), F(4, 3), F(5, 2), F(-2, 3)]
@@ -38,10 +42,60 @@ def num(e):
     return e.numerator if e.denominator == 1 else e.numerator / e.denominator
 
 
+CHAIN_POWERS = [F(1, 5), F(2, 5), F(3, 5), F(1, 3), F(2, 3), F(1, 2), F(3, 2), F(5, 2), F(5, 3),
+                F(1, 10), F(3, 10), F(2), F(3), F(5), F(10)]
+
+
+def chain_value(e0, p1, p2):
+    """the binary64 exponent the library computes for (x**p1)**p2 when x has exponent e0"""
+    return (e0 * float(p1)) * float(p2)
+
+
+def chain_cases(rng, n_random):
+    """(u, route) with route 'chain:p1:p2': the unit u is reached from an integer map u0 by two
+    constant *float* powers, u = u0 * p1 * p2 exactly (denominators <= 10).  First a fixed list
+    of the chains whose binary64 product differs from the exact exponent (an integer that is
+    computed as 3.0000000000000004, a fraction that is not the nearest double), then random
+    ones over several symbols."""
+    pairs = [(a, b) for a in CHAIN_POWERS for b in CHAIN_POWERS
+             if a.denominator != 1 or b.denominator != 1]
+    fixed, seen = [], set()
+    for a, b in pairs:
+        for e0 in (1, 2, 3, 4, -1, -2, -3, -4):
+            e = e0 * a * b
+            if e.denominator > 10 or (-1 * a * b).denominator > 10:
+                continue
+            inexact = chain_value(e0, a, b) != float(e)
+            if not inexact:
+                continue
+            key = (e, e.denominator == 1, a * b)
+            if key in seen:
+                continue
+            seen.add(key)
+            fixed.append(([("m", e), ("s", -1 * a * b)], "chain:{}:{}".format(a, b)))
+    rng.shuffle(fixed)
+    out = fixed[:60]
+    tries = 0
+    while len(out) < 60 + n_random and tries < 50 * n_random:
+        tries += 1
+        a, b = rng.choice(pairs)
+        syms = rng.sample(X.SYMS, rng.randint(1, 3))
+        u = [(k, rng.choice(INTS) * a * b) for k in syms]
+        if any(e.denominator > 10 for _, e in u):
+            continue
+        out.append((u, "chain:{}:{}".format(a, b)))
+    return out
+
+
 def build(q, u, route, mk):
     """a quantity (or array) whose unit is u, built through arithmetic; mk(sym_unit_string)"""
     if route == "string":
         return mk(X.unit_string(u))
+    if route.startswith("chain:"):
+        _, a, b = route.split(":")
+        p1, p2 = F(a), F(b)
+        u0 = [(k, e / (p1 * p2)) for k, e in u]
+        return (mk(X.unit_string(u0)) ** float(p1)) ** float(p2)
 
     def powr(k, e):
         x = mk(k)
@@ -248,7 +302,11 @@ def run(ctx, cases, ref=False, use_model=True):
     same = 0
     for (u, frac, route, arrays), o, a, b in zip(cases, obs, mp, ms):
         dist["style:" + ("fraction" if frac else "exponents")] += 1
-        dist["route:" + route] += 1
+        dist["route:" + route.split(":")[0]] += 1
+        if route.startswith("chain:"):
+            p1, p2 = (F(x) for x in route.split(":")[1:])
+            if any(chain_value(float(e / (p1 * p2)), p1, p2) != float(e) for _, e in u):
+                dist["chain with inexact binary64 product"] += 1
         dist["symbols:{}".format(len(u))] += 1
         dist["arrays" if arrays else "scalars-only"] += 1
         if nontrivial(u):
@@ -272,6 +330,10 @@ def gen_cases(rng, n, arrays_every=4):
         for frac in (True, False):
             route = rng.choice(routes_for(u))
             cases.append((u, frac, route, i % arrays_every == 0))
+    # chains of two constant float powers (both styles; every 3rd also on arrays)
+    for i, (u, route) in enumerate(chain_cases(rng, max(20, n // 10))):
+        for frac in (True, False):
+            cases.append((u, frac, route, i % 3 == 0))
     return cases
 
 
